@@ -136,8 +136,14 @@ def tlc(module, cfg, metadir, env=None, workers=4, timeout=1800, heap='4g', simu
         if line.startswith('<<"'):
             pl = parse_tuple_line(line)
             if pl:
-                if line_cb and line_cb(pl[0], pl[1]):
-                    continue
+                if line_cb:
+                    keep = line_cb(pl[0], pl[1])
+                    if keep == 'STOP':      # the caller has what it needs (simulation runs are unbounded)
+                        r.stopped = True
+                        p.kill()
+                        break
+                    if keep:
+                        continue
                 r.lines.setdefault(pl[0], []).append(pl[1])
                 continue
         tail.append(line)
@@ -155,10 +161,10 @@ def tlc(module, cfg, metadir, env=None, workers=4, timeout=1800, heap='4g', simu
         if line.startswith('Error:'):
             r.errors.append(line)
     p.wait()
-    r.rc = p.returncode
+    r.rc = 0 if getattr(r, 'stopped', False) else p.returncode
     r.wall = time.time() - t0
     r.tail = '\n'.join(tail[-60:])
-    if p.returncode == 124:
+    if p.returncode == 124 and not getattr(r, 'stopped', False):
         raise ToolError('TLC timed out after %ss on %s' % (timeout, module))
     return r
 
